@@ -313,6 +313,13 @@ def run_case(case):
     # ---- zero / absent uncertainty: sampled run equals unsampled run --------------------------------------------
     if case["zero_uncertainty"]:
         try:
+            if case.get("n_samples", 0) % 4 != 1:
+                # the parameter set carries a saved state (a restart in the middle of the original run): a sampled copy carries it too
+                r_first = P.run_sim(parset, progset=pset, progset_instructions=instr)
+                y_mid = float(r_first.t[len(r_first.t) // 2])
+                parset.set_initialization(r_first, y_mid)
+                P.settings.update_time_vector(start=y_mid)
+                R.count("zero_uncertainty_calls_on_a_parset_with_a_saved_state")
             r0 = P.run_sim(parset, progset=pset, progset_instructions=instr)
             rs = P.run_sampled_sims(parset, progset=pset, progset_instructions=instr, n_samples=2)
             R.count("zero_uncertainty_calls")
